@@ -3,6 +3,8 @@
 
 usage: eval_benign.py SRC_DIR [...]      (SRC_DIR holds patch.diff, demo.py, meta.json)
        eval_benign.py --recheck [ID_x ...]
+       eval_benign.py --related [ID_x ...]   every OTHER check anchored in a file the stored patch touches (plus C20) must
+                                             stay quiet too; verdicts go to meta.json verified.related
 
 For every candidate: scratch copy of /repo, demo on the clean copy (exit 0), patch applied, 71-test baseline re-run,
 demo on the patched copy (must ALSO exit 0 - the author's own evidence that the property still holds), then the
@@ -23,9 +25,59 @@ import sensitivity as S  # noqa: E402
 from eval_seeded import run_demo  # noqa: E402
 
 
+def related_props(patch, own):
+    anchors = {}
+    for l in open(os.path.join(HERE, "properties.jsonl")):
+        p = json.loads(l)
+        for f in p["anchors"]["files"]:
+            anchors.setdefault(f, set()).add(p["id"])
+    touched = [l[6:].strip() for l in open(patch) if l.startswith("+++ b/")]
+    out = {"C20"}
+    for f in touched:
+        out |= anchors.get(f, set())
+    out.discard(own)
+    return sorted(out)
+
+
+def related_main(ids):
+    ids = ids or sorted(os.listdir(os.path.join(HERE, "benign")))
+    for name in ids:
+        src = os.path.join(HERE, "benign", name)
+        patch = os.path.join(src, "patch.diff")
+        if not os.path.exists(patch):
+            continue
+        meta = json.load(open(os.path.join(src, "meta.json")))
+        own = name[:3]
+        d = S.make_copy()
+        rel = {}
+        lines = {}
+        try:
+            ap = subprocess.run(["git", "apply", "--unsafe-paths", "--directory", d, patch], capture_output=True, text=True, cwd="/")
+            if ap.returncode != 0:
+                print(f"{name}: patch does not apply"); continue
+            for prop in related_props(patch, own):
+                rc, out = S.run_check(d, prop, "quick", "1")
+                rel[prop] = {0: "quiet", 1: "ALARM", 2: "harness-error"}.get(rc, str(rc))
+                if rc != 0:
+                    lines[prop] = [l[:400] for l in out.splitlines() if l.startswith("VIOLATION") or l.startswith("  sub=") or "HARNESS" in l][:6]
+        finally:
+            shutil.rmtree(d, ignore_errors=True)
+        print(f"{name}: related {json.dumps(rel)}")
+        for prop, ls in lines.items():
+            for l in ls:
+                print(f"    [{prop}] {l}")
+        meta.setdefault("verified", {})["related"] = rel
+        if lines:
+            meta["verified"]["related_lines"] = lines
+        with open(os.path.join(src, "meta.json"), "w") as f:
+            json.dump(meta, f, indent=1)
+
+
 def main():
     args = sys.argv[1:]
     recheck = False
+    if args and args[0] == "--related":
+        return related_main(args[1:])
     if args and args[0] == "--recheck":
         recheck = True
         args = args[1:] or sorted(os.listdir(os.path.join(HERE, "benign")))
